@@ -38,20 +38,21 @@ Ltac ok_inv H := inversion H; subst; clear H.
 
 (* ---- ~* : the cursor ------------------------------------------------------------------------------------ *)
 (* ~n* skips n arguments, ~n:* backs up n, ~n@* goes to argument n; inside 0..len this is all that happens *)
-Theorem move_law : forall b colon at_ ps c c' a,
-  dir_move b colon at_ ps c = Ok (c', a) ->
+Theorem move_law : forall colon at_ ps c c' a,
+  dir_move colon at_ ps c = Ok (c', a) ->
   exists n changed, first_int ps 1 = (GOk n, changed) /\ (colon && at_ = false) /\ a = false /\ extends c c' /\
     c_apos c' = (if colon then c_apos c - n else if at_ then (if changed then n else 0) else c_apos c + n)%Z.
 Proof.
-  intros b colon at_ ps c c' a H. unfold dir_move in H.
+  intros colon at_ ps c c' a H. unfold dir_move in H.
   destruct (first_int ps 1) as [g changed] eqn:E. destruct g as [n| |]; try discriminate.
   exists n, changed. split; [reflexivity|].
   destruct (colon && at_) eqn:Eca; [discriminate|]. split; [reflexivity|].
   break_in H; ok_inv H; (split; [reflexivity|]); (split; [repeat split; exists []; cbn; rewrite app_nil_r; reflexivity | reflexivity]).
 Qed.
-(* by the definition (S) the cursor never leaves the argument list: 0 <= position <= number of arguments *)
+(* the cursor never leaves the argument list: 0 <= position <= number of arguments (the Go code checks it since
+   repo_fixes/C15-15) *)
 Theorem move_stays_inside : forall colon at_ ps c c' a,
-  dir_move false colon at_ ps c = Ok (c', a) -> (0 <= c_apos c' <= nargs c)%Z.
+  dir_move colon at_ ps c = Ok (c', a) -> (0 <= c_apos c' <= nargs c)%Z.
 Proof.
   intros colon at_ ps c c' a H. unfold dir_move in H.
   break_in H; ok_inv H; cbn [c_apos set_apos];
@@ -280,8 +281,6 @@ Definition deviation_witnesses : list (string * list value) := [
   ("abc~{~5T~A~}", [ints [1]]);                                       (* column inside a block *)
   ("abc~2,4T|", []);                                                  (* ~colnum,colincT *)
   ("~T|", []);
-  ("~:*~A", [VInt 1]);                                                (* cursor before the first argument *)
-  ("~A~5*", [VInt 1]);                                                (* cursor beyond the last argument *)
   ("~{~A~}}", [ints [1]]);                                            (* a brace after the block *)
   ("~{~2{~A~}|~}", [VList [ints [1; 2; 3]; ints [4; 5; 6]]]);         (* nested block with a parameter *)
   ("~{~{~A~:}|~}", [VList [ints [1]; ints [2]]]);                     (* nested ~:} *)
@@ -294,7 +293,6 @@ Proof. vm_compute. reflexivity. Qed.
 Definition deviation_table : list ((string * list value) * (outcome * outcome)) := [
   (("~{~A~^,~}", [ints [1; 2; 3]]), (OText (tx "1,"), OText (tx "1,2,3")));
   (("abc~2,4T|", []), (OText (tx "abc     |"), OText (tx "abc   |")));
-  (("~:*~A", [VInt 1]), (OText (tx "nil"), OError));
   (("~{~A~}}", [ints [1]]), (OText (tx "1"), OText (tx "1}")))
 ]%Z.
 Lemma deviation_values : map (fun e => both (fst e)) deviation_table = map snd deviation_table.
